@@ -88,9 +88,16 @@ class Resolver:
                 if isinstance(c, ast.Lambda):
                     continue
                 if isinstance(c, ast.Assign):
-                    p = c.value if _is_pure_path(c.value) else None
-                    for t in c.targets:
-                        self._bind(t, p)
+                    if isinstance(c.value, (ast.Tuple, ast.List)) and all(isinstance(t, (ast.Tuple, ast.List)) and len(t.elts) == len(c.value.elts)
+                                                                           and not any(isinstance(x, ast.Starred) for x in t.elts) for t in c.targets):
+                        # `a, b = x[0], x[1]`: element-wise single assignments
+                        for t in c.targets:
+                            for tt, vv in zip(t.elts, c.value.elts):
+                                self._bind(tt, vv if _is_pure_path(vv) else None)
+                    else:
+                        p = c.value if _is_pure_path(c.value) else None
+                        for t in c.targets:
+                            self._bind(t, p)
                 elif isinstance(c, ast.AnnAssign):
                     if c.value is not None:
                         self._bind(c.target, c.value if _is_pure_path(c.value) else None)
